@@ -502,14 +502,17 @@ def r13_every_file_patch_is_queued(ck, par, rule="C06-R13"):
     run only (a `continue` for entries that "have nothing to apply": a mode-only entry still changes the mode)."""
     prog = ck.prog
     n_add = n_push = 0
-    for it in pt.iterations(par, prog):
-        ity = it["iter_ty"]
-        if "patch::FilePatch<" not in ity or "Result<" in ity or "(usize" in ity or "AppliedState" in ity:
-            continue
+    its = pt.iterations(par, prog)
+    # the pass is the innermost walk around the call (the walk over the patches around it may skip a patch that failed to load)
+    def innermost(bf_id, bb):
+        c = [it for it in its if it["body_fn"].id == bf_id and bb in it["body"]]
+        return min(c, key=lambda it: len(it["body"])) if c else None
+    seen = set()
+    for it in its:
         bf = it["body_fn"]
-        adds = {bb for bb, t, c in calls_named(bf, "FilenameDistributor::<T>::add") if bb in it["body"]}
+        adds = {bb for bb, t, c in calls_named(bf, "FilenameDistributor::<T>::add") if bb in it["body"] and innermost(bf.id, bb) is it}
         pushes = {bb for bb, t in bf.calls() if bb in it["body"] and (callee_of(t).get("rpath") or "").endswith("Vec::<T, A>::push") and
-                  "FilePatch<" in (t["argtys"][0] if t["argtys"] else "")}
+                  "FilePatch<" in (t["argtys"][0] if t["argtys"] else "") and innermost(bf.id, bb) is it}
         if adds:
             n_add += 1
             ck.require(pt.every_item_reaches(it, adds), rule, "every file patch of a loaded patch is registered with the distributor",
@@ -521,9 +524,5 @@ def r13_every_file_patch_is_queued(ck, par, rule="C06-R13"):
                        "an iteration over the file patches can go on to the next one without pushing it onto a queue: the parallel run drops "
                        "that file patch (its mode change, its creation of an empty file ...) while the single-threaded run applies it",
                        it["where"], ok_detail="push onto a per-thread queue is on every path of an iteration")
-        if not adds and not pushes:
-            ck.info(rule, "a walk over file patches in the parallel driver that neither registers nor queues them",
-                       "the parallel driver walks over file patches (%s) without registering or queueing them: the rule does not know this pass" % ity[:80],
-                       it["where"])
     ck.floor(rule, "passes registering file patches", n_add, 1)
     ck.floor(rule, "passes queueing file patches", n_push, 1)
